@@ -4,7 +4,7 @@ package c17
 import (
 	"context"
 	"fmt"
-	"math/rand"
+	"os"
 	"sync"
 	"time"
 
@@ -18,7 +18,7 @@ const Level = "exploration"
 // Case is one timing scenario.
 type Case struct {
 	ID      int    `json:"id"`
-	Kind    string `json:"kind"` // inflight | ondemand | idle | normal
+	Kind    string `json:"kind"` // inflight | ondemand | latency | afteridle | stream | idle | normal | reaper
 	BlockMs int    `json:"block_interval_ms"`
 	Ratio   int    `json:"idle_to_block_ratio"`
 	ProdPct int    `json:"production_duration_pct_of_block"`
@@ -27,10 +27,12 @@ type Case struct {
 	// RatioPct (afteridle): idle interval in percent of the block interval (150, 250, 350: the idle ticks do not fall
 	// on multiples of the block interval)
 	RatioPct int `json:"idle_to_block_ratio_pct,omitempty"`
+	// Variant (reaper): plain | held-submit | failing-submit | pair
+	Variant string `json:"variant,omitempty"`
 }
 
 func (c Case) key() string {
-	return fmt.Sprintf("%s b%d r%d/%d p%d %v s%v", c.Kind, c.BlockMs, c.Ratio, c.RatioPct, c.ProdPct, c.Offsets, c.Storm)
+	return fmt.Sprintf("%s b%d r%d/%d p%d %v s%v %s", c.Kind, c.BlockMs, c.Ratio, c.RatioPct, c.ProdPct, c.Offsets, c.Storm, c.Variant)
 }
 
 // recorder replaces the production function: it logs starts and ends and can hold a production in flight.
@@ -40,20 +42,15 @@ type recorder struct {
 	ends   []time.Time
 	dur    time.Duration
 	hold   chan struct{} // when non-nil, a production blocks until it can receive
-	cond   *sync.Cond
 }
 
-func newRecorder(dur time.Duration) *recorder {
-	r := &recorder{dur: dur}
-	r.cond = sync.NewCond(&r.mu)
-	return r
-}
+func newRecorder(dur time.Duration) *recorder { return &recorder{dur: dur} }
 
 func (r *recorder) publish(ctx context.Context) error {
+	now := time.Now() // taken before the lock: the driver polls under the same lock
 	r.mu.Lock()
-	r.starts = append(r.starts, time.Now())
+	r.starts = append(r.starts, now)
 	hold := r.hold
-	r.cond.Broadcast()
 	r.mu.Unlock()
 	if hold != nil {
 		select {
@@ -66,9 +63,9 @@ func (r *recorder) publish(ctx context.Context) error {
 		case <-ctx.Done():
 		}
 	}
+	now = time.Now()
 	r.mu.Lock()
-	r.ends = append(r.ends, time.Now())
-	r.cond.Broadcast()
+	r.ends = append(r.ends, now)
 	r.mu.Unlock()
 	return nil
 }
@@ -77,6 +74,24 @@ func (r *recorder) nStarts() int {
 	r.mu.Lock()
 	defer r.mu.Unlock()
 	return len(r.starts)
+}
+
+func (r *recorder) start(i int) time.Time {
+	r.mu.Lock()
+	defer r.mu.Unlock()
+	return r.starts[i]
+}
+
+func (r *recorder) end(i int) time.Time {
+	r.mu.Lock()
+	defer r.mu.Unlock()
+	return r.ends[i]
+}
+
+func (r *recorder) allStarts() []time.Time {
+	r.mu.Lock()
+	defer r.mu.Unlock()
+	return append([]time.Time(nil), r.starts...)
 }
 
 // waitStarts waits until at least n productions have started; false = watchdog.
@@ -111,15 +126,20 @@ func (r *recorder) waitEnds(n int, d time.Duration) bool {
 
 const lostWatchdog = 15 * time.Second
 
-func startNode(ctx context.Context, c Case, rec *recorder) (*world.Node, chan struct{}, error) {
-	block := time.Duration(c.BlockMs) * time.Millisecond
-	lazy := time.Duration(c.Ratio) * block
-	if c.Kind == "inflight" {
-		lazy = time.Hour
+func (c Case) intervals() (block, idle time.Duration) {
+	block = time.Duration(c.BlockMs) * time.Millisecond
+	idle = time.Duration(c.Ratio) * block
+	if c.Kind == "inflight" || c.Kind == "reaper" {
+		idle = time.Hour
 	}
 	if c.RatioPct > 0 {
-		lazy = block * time.Duration(c.RatioPct) / 100
+		idle = block * time.Duration(c.RatioPct) / 100
 	}
+	return
+}
+
+func startNode(ctx context.Context, c Case, rec *recorder) (*world.Node, chan struct{}, error) {
+	block, lazy := c.intervals()
 	n, err := world.NewNode(ctx, world.NodeOpts{Aggregator: true, Lazy: c.Kind != "normal", BlockTime: block, LazyInterval: lazy},
 		world.NewKeys("proposer"), world.NewMemDS(world.NewImage()), world.NewExecDouble(), world.NewSeqDouble(), world.NewDADouble(), nil)
 	if err != nil {
@@ -135,9 +155,38 @@ func startNode(ctx context.Context, c Case, rec *recorder) (*world.Node, chan st
 	return n, done, nil
 }
 
-func run(r *vk.Run, c Case) {
+// cand is a time-based violation candidate. Such a candidate becomes a violation only when an immediate repetition of
+// the same scenario yields a candidate of the same clause again (a changed re-arming rule shows every time, a burst of
+// machine load does not).
+type cand struct {
+	clause, detail string
+	wit            any
+}
+
+// obs is what one execution of a scenario observed besides the verdicts that are facts (those go to vk.Run directly).
+type obs struct {
+	cands   []cand
+	inconc  []string
+	refWeak bool // the calibration reference itself stayed below nominal: the sample says nothing about lower bounds
+}
+
+func (o *obs) cand(clause, detail string, wit any) {
+	o.cands = append(o.cands, cand{clause, detail, wit})
+}
+func (o *obs) inconclusive(s string) { o.inconc = append(o.inconc, s) }
+
+func pct(d, of time.Duration) int64 { return int64(d * 100 / of) }
+
+// shortGap is the smallest start-to-start distance not counted as "faster than one per block interval". Timers never
+// fire early and both timers are re-armed relative to the start of the production, so the only thing that can shorten
+// an observed gap below the block interval is the skew between the loop's own clock reading and the recorder's
+// (normally microseconds): 5 % of the interval is allowed for it.
+func shortGap(block time.Duration) time.Duration { return block - block/20 }
+
+func runOnce(r *vk.Run, c Case) *obs {
+	o := &obs{}
 	ctx, cancel := context.WithCancel(context.Background())
-	block := time.Duration(c.BlockMs) * time.Millisecond
+	block, idleIv := c.intervals()
 	rec := newRecorder(block * time.Duration(c.ProdPct) / 100)
 	if c.Kind == "inflight" {
 		rec.hold = make(chan struct{})
@@ -146,7 +195,7 @@ func run(r *vk.Run, c Case) {
 	if err != nil {
 		cancel()
 		r.Violation("startup", err.Error(), c)
-		return
+		return o
 	}
 	defer func() {
 		cancel()
@@ -156,15 +205,14 @@ func run(r *vk.Run, c Case) {
 		select {
 		case <-done:
 		case <-time.After(lostWatchdog):
-			r.Inconclusive("aggregation loop did not stop within the watchdog")
+			o.inconclusive("aggregation loop did not stop within the watchdog")
 		}
 	}()
 	wit := func(extra string) any {
-		rec.mu.Lock()
-		defer rec.mu.Unlock()
+		st := rec.allStarts()
 		var rel []float64
-		for _, s := range rec.starts {
-			rel = append(rel, float64(s.Sub(rec.starts[0]).Microseconds())/1000)
+		for _, s := range st {
+			rel = append(rel, float64(s.Sub(st[0]).Microseconds())/1000)
 		}
 		return map[string]any{"case": c, "production_starts_ms": rel, "note": extra}
 	}
@@ -172,152 +220,168 @@ func run(r *vk.Run, c Case) {
 	case "inflight":
 		// production i is held in flight; a notification arrives; after release a further production must start
 		if !rec.waitStarts(1, lostWatchdog) {
-			r.Inconclusive("first production never started")
-			return
+			o.inconclusive("first production never started")
+			return o
 		}
+		double := false
 		for i, off := range c.Offsets {
 			have := rec.nStarts()
 			// notification(s) while production `have` is in flight
 			time.Sleep(block * time.Duration(off) / 100)
 			n.M.NotifyNewTransactions()
 			if off%2 == 1 {
+				double = true
 				n.M.NotifyNewTransactions() // a second one right behind
 			}
 			rec.hold <- struct{}{} // release the production in flight
 			r.Hit("no-lost-wakeup")
 			if !rec.waitStarts(have+1, lostWatchdog) {
 				r.Violation("no-lost-wakeup", fmt.Sprintf("a notification arrived while production #%d was in flight (offset %d%% of the block interval); the idle interval is 1 h; no further production started within %v after that production finished", have, off, lostWatchdog), wit(fmt.Sprintf("round %d", i)))
-				return
+				return o
 			}
 			r.Count("inflight_notifications_followed_by_block", 1)
 		}
-		// and without a notification nothing more is produced (idle interval 1 h): observe two block intervals
-		have := rec.nStarts()
-		rec.hold <- struct{}{}
-		time.Sleep(3 * block)
-		r.Hit("no-spurious-block")
-		if rec.nStarts() > have {
-			r.Violation("no-spurious-block", "a block was produced in lazy mode without a notification and long before the idle interval", wit(""))
+		// and without a notification nothing more is produced (idle interval 1 h): observe three block intervals. Only
+		// where every round sent exactly one notification: whether two notifications during one production are worth
+		// one further block or two is not fixed by the statement.
+		if !double {
+			have := rec.nStarts()
+			rec.hold <- struct{}{}
+			time.Sleep(3 * block)
+			r.Hit("no-spurious-block")
+			if rec.nStarts() > have {
+				r.Violation("no-spurious-block", "a block was produced in lazy mode without a notification and long before the idle interval", wit(""))
+			}
 		}
-	case "ondemand":
+	case "ondemand", "latency":
 		if !rec.waitStarts(1, lostWatchdog) || !rec.waitEnds(1, lostWatchdog) {
-			r.Inconclusive("first production did not finish")
-			return
+			o.inconclusive("first production did not finish")
+			return o
 		}
-		early, late, lost := 0, 0, 0
+		early, late, lost, samples := 0, 0, 0, 0
+		var lats []string
 		for _, off := range c.Offsets {
 			have := rec.nStarts()
-			rec.mu.Lock()
-			prevStart := rec.starts[have-1]
-			rec.mu.Unlock()
-			time.Sleep(block * time.Duration(off) / 100)
+			prevStart := rec.start(have - 1)
+			if c.Kind == "latency" {
+				// offset counted from the start of the previous production (well after its end)
+				time.Sleep(time.Until(prevStart.Add(block * time.Duration(off) / 100)))
+			} else {
+				// offset counted from the end of the previous production
+				time.Sleep(block * time.Duration(off) / 100)
+			}
 			if rec.nStarts() != have {
 				continue // the idle timer produced meanwhile; this sample says nothing
 			}
 			t0 := time.Now()
+			ov := sleepOvershoot(t0, block, 3)
 			n.M.NotifyNewTransactions()
 			if !rec.waitStarts(have+1, lostWatchdog) {
 				lost++
 				break
 			}
-			rec.mu.Lock()
-			st := rec.starts[have]
-			rec.mu.Unlock()
+			st := rec.start(have)
 			r.Hit("on-demand")
-			lat := st.Sub(t0)
+			// a production that was in flight at the notification (one the idle timer had just started) comes first:
+			// the block interval then counts from its end
+			base := t0
+			if e := rec.end(have - 1); e.After(t0) {
+				base = e
+				r.Count("ondemand_samples_with_production_in_flight", 1)
+			}
+			lat := st.Sub(base)
 			gap := st.Sub(prevStart)
+			over := <-ov
+			samples++
 			r.Count("ondemand_samples", 1)
-			if gap < block/2 {
+			if gap < shortGap(block) {
 				early++
 			}
-			// one block interval, plus a production that may have been in flight, plus generous scheduling slack
-			if lat > 3*block+rec.dur+50*time.Millisecond {
+			// "within one block interval": any production start counts (also one the idle timer triggers). The budget
+			// is the block interval plus what a plain sleep of one block interval started at the same instant in this
+			// process overshot plus a quarter of the interval for the extra goroutine hand-overs of the loop.
+			if lat > block+over+block/4 {
 				late++
+				lats = append(lats, fmt.Sprintf("offset %d%%: latency %.1f ms, reference sleep overshoot %.1f ms", off, float64(lat.Microseconds())/1000, float64(over.Microseconds())/1000))
 			}
 			rec.waitEnds(have+1, lostWatchdog)
 		}
 		if lost > 0 {
 			r.Violation("on-demand", "a notification in lazy mode was not followed by a block within the watchdog", wit(""))
-			return
+			return o
 		}
 		r.Hit("min-gap")
 		if early >= 3 {
-			r.Violation("min-gap", fmt.Sprintf("%d of %d on-demand blocks started less than half a block interval after the previous block started", early, len(c.Offsets)), wit(""))
+			o.cand("min-gap", fmt.Sprintf("%d of %d on-demand blocks started less than 95 %% of a block interval (%v) after the previous block started", early, samples, block), wit(""))
 		} else if early > 0 {
 			r.Count("isolated_early_gaps_not_judged", int64(early))
 		}
-		// "within one block interval" is only meaningful when the idle timer is far away
-		if c.Ratio >= 20 {
+		if samples >= 3 {
 			r.Hit("on-demand-latency")
-			if late >= 3 {
-				r.Violation("on-demand-latency", fmt.Sprintf("%d of %d notifications were followed by a block only after more than three block intervals", late, len(c.Offsets)), wit(""))
-			} else if late > 0 {
-				r.Count("isolated_late_blocks_not_judged", int64(late))
-			}
+		}
+		if late >= 3 {
+			o.cand("on-demand-latency", fmt.Sprintf("%d of %d notifications were followed by the next production start later than one block interval (%v) + the overshoot of a reference sleep of one block interval started at the notification + a quarter interval: %v", late, samples, block, lats), wit(""))
+		} else if late > 0 {
+			r.Count("isolated_late_blocks_not_judged", int64(late))
 		}
 	case "afteridle":
 		// a notification arrives shortly after (even offsets) or shortly before (odd offsets) a block that the idle timer
 		// produced: the block it is entitled to must still keep one block interval from that idle block
 		if !rec.waitStarts(1, lostWatchdog) || !rec.waitEnds(1, lostWatchdog) {
-			r.Inconclusive("first production did not finish")
-			return
+			o.inconclusive("first production did not finish")
+			return o
 		}
-		idle := block * time.Duration(c.RatioPct) / 100
 		early, samples := 0, 0
 		for _, off := range c.Offsets {
 			have := rec.nStarts()
 			if off%2 == 1 {
 				// shortly before the idle tick that follows block `have`
-				rec.mu.Lock()
-				last := rec.starts[have-1]
-				rec.mu.Unlock()
-				time.Sleep(time.Until(last.Add(idle - block*time.Duration(off)/100)))
+				last := rec.start(have - 1)
+				time.Sleep(time.Until(last.Add(idleIv - block*time.Duration(off)/100)))
 				if rec.nStarts() != have {
 					continue
 				}
 				n.M.NotifyNewTransactions()
 				if !rec.waitStarts(have+2, lostWatchdog) {
 					r.Violation("on-demand", "a notification shortly before an idle tick was not followed by blocks within the watchdog", wit(""))
-					return
+					return o
 				}
 			} else {
 				// wait for the idle block, then notify shortly after it started
 				if !rec.waitStarts(have+1, lostWatchdog) {
-					r.Inconclusive("no idle block within the watchdog")
-					return
+					o.inconclusive("no idle block within the watchdog")
+					return o
 				}
 				time.Sleep(block * time.Duration(off) / 100)
 				n.M.NotifyNewTransactions()
 				if !rec.waitStarts(have+2, lostWatchdog) {
 					r.Violation("on-demand", "a notification shortly after an idle block was not followed by a block within the watchdog", wit(""))
-					return
+					return o
 				}
 			}
-			rec.mu.Lock()
-			g1 := rec.starts[have].Sub(rec.starts[have-1])
-			g2 := rec.starts[have+1].Sub(rec.starts[have])
-			rec.mu.Unlock()
+			g1 := rec.start(have).Sub(rec.start(have - 1))
+			g2 := rec.start(have + 1).Sub(rec.start(have))
 			samples++
 			r.Hit("min-gap-around-idle-block")
-			if g1 < block*3/4 || g2 < block*3/4 {
+			if g1 < shortGap(block) || g2 < shortGap(block) {
 				early++
 			}
 			rec.waitEnds(have+2, lostWatchdog)
 		}
 		if early >= 3 {
-			r.Violation("min-gap", fmt.Sprintf("%d of %d times two blocks started less than 3/4 of a block interval apart around a block produced by the idle timer (block interval %v, idle interval %v)", early, samples, block, idle), wit(""))
+			o.cand("min-gap", fmt.Sprintf("%d of %d times two blocks started less than 95 %% of a block interval apart around a block produced by the idle timer (block interval %v, idle interval %v)", early, samples, block, idleIv), wit(""))
 		} else if early > 0 {
 			r.Count("isolated_early_gaps_not_judged", int64(early))
 		}
 	case "stream":
 		// notifications keep arriving closer together than one block interval: each of them is entitled to a block
 		// within one block interval, so blocks must keep coming at the block cadence (the idle timer is far away)
+		ref := startRef(ctx, block, rec.dur)
 		if !rec.waitStarts(1, lostWatchdog) || !rec.waitEnds(1, lostWatchdog) {
-			r.Inconclusive("first production did not finish")
-			return
+			o.inconclusive("first production did not finish")
+			return o
 		}
 		time.Sleep(2 * block)
-		have := rec.nStarts()
 		gap := block * time.Duration(c.Offsets[0]) / 100
 		window := 12 * block
 		t0 := time.Now()
@@ -325,26 +389,34 @@ func run(r *vk.Run, c Case) {
 			n.M.NotifyNewTransactions()
 			time.Sleep(gap)
 		}
-		got := rec.nStarts() - have
-		nominal := int(time.Since(t0) / block)
+		t1 := time.Now()
+		node := within(rec.allStarts(), t0, t1)
+		got, refN := len(node), ref.between(t0, t1)
+		nominal := int(t1.Sub(t0) / block)
 		r.Hit("stream-not-starved")
 		r.Count("stream_blocks_observed", int64(got))
-		switch {
-		case got == 0:
-			r.Violation("stream-not-starved", fmt.Sprintf("notifications every %v for %v (block interval %v, idle interval %v) and not a single block was produced", gap, time.Since(t0), block, time.Duration(c.Ratio)*block), wit(""))
-		case got < nominal/4:
-			r.Inconclusive(fmt.Sprintf("stream: only %d blocks in %d block intervals (machine load?)", got, nominal))
-		case got > nominal+2:
-			r.Violation("cadence-upper", fmt.Sprintf("%d blocks in %d block intervals under a notification stream", got, nominal), wit(""))
+		r.Count("stream_reference_ticks", int64(refN))
+		judgeUpper(o, node, block, fmt.Sprintf("under a notification stream (one every %v)", gap), wit)
+		if refN*10 < nominal*8 {
+			o.refWeak = true
+		} else if got*2 < refN {
+			// every notification is entitled to a block within one block interval: with notifications `gap` apart
+			// two block starts are at most block+gap < 2 block intervals apart, i.e. at least half the reference count
+			o.cand("stream-not-starved", fmt.Sprintf("notifications every %v for %v (block interval %v, idle interval %v): %d blocks were produced while a reference timer loop re-armed at the block interval ticked %d times in the same window", gap, t1.Sub(t0), block, idleIv, got, refN), wit(""))
 		}
 	case "idle", "normal":
 		interval := block
 		if c.Kind == "idle" {
-			interval = time.Duration(c.Ratio) * block
+			interval = idleIv
 		}
+		period := interval // what the statement lets one expect between two starts
+		if rec.dur > period {
+			period = rec.dur
+		}
+		ref := startRef(ctx, interval, rec.dur)
 		if !rec.waitStarts(1, lostWatchdog) {
-			r.Inconclusive("first production never started")
-			return
+			o.inconclusive("first production never started")
+			return o
 		}
 		stop := make(chan struct{})
 		if c.Storm {
@@ -360,27 +432,128 @@ func run(r *vk.Run, c Case) {
 				}
 			}()
 		}
-		window := 24 * interval
+		window := 24 * period
 		t0 := time.Now()
-		have := rec.nStarts()
 		time.Sleep(window)
-		got := rec.nStarts() - have
-		elapsed := time.Since(t0)
+		t1 := time.Now()
 		close(stop)
-		nominal := int(elapsed / interval)
+		node := within(rec.allStarts(), t0, t1)
+		got, refN := len(node), ref.between(t0, t1)
+		nominal := int(t1.Sub(t0) / period)
 		r.Hit("cadence")
 		r.Count("cadence_blocks_observed", int64(got))
-		// timers never fire early: more blocks than elapsed/interval (+2) cannot come from load
-		if got > nominal+2 {
-			r.Violation("cadence-upper", fmt.Sprintf("%d blocks in %v with an interval of %v (at most %d expected)", got, elapsed, interval, nominal+2), wit(""))
+		r.Count("cadence_reference_ticks", int64(refN))
+		what := fmt.Sprintf("%s mode, interval %v, production duration %v", map[bool]string{true: "lazy (no notifications)", false: "normal"}[c.Kind == "idle"], interval, rec.dur)
+		if c.Storm {
+			what += ", notification storm"
 		}
-		if got < nominal/3 {
-			if got == 0 {
-				r.Violation("cadence-lower", fmt.Sprintf("no block in %v with an interval of %v", elapsed, interval), wit(""))
-			} else {
-				r.Inconclusive(fmt.Sprintf("only %d blocks in %v at interval %v (machine load?)", got, elapsed, interval))
+		judgeUpper(o, node, interval, "in "+what, wit)
+		// lower bound, calibrated: the reference loop lives in this process and is re-armed by the same rule; the node
+		// must reach 70 % of what the reference reached in the same window (50 % where the production overruns the
+		// interval: a loop that waits for its next grid point after an overrun is not excluded by the statement)
+		need := 70
+		if rec.dur > interval {
+			need = 50
+		}
+		switch {
+		case refN*10 < nominal*8:
+			o.refWeak = true
+		case got*100 < refN*need:
+			med := medianGap(node)
+			if rec.dur <= interval && len(node) >= 4 && med <= interval+interval*4/10 {
+				// few blocks but the typical gap is right: some long stalls, i.e. load
+				r.Count("cadence_low_count_with_nominal_median_gap_not_judged", 1)
+				break
+			}
+			o.cand("cadence-lower", fmt.Sprintf("%d blocks in %v in %s, while a reference timer loop in the same process, re-armed one interval after each start, ticked %d times in the same window (nominal %d); median gap between blocks %v", got, t1.Sub(t0), what, refN, nominal, med), wit(""))
+		default:
+			r.Hit("cadence-lower")
+		}
+	}
+	// every lazy-mode scenario: start-to-start gaps over the whole run (also from an on-demand block to a following
+	// idle block). Not in normal mode: there the statement fixes the rate ("once per block interval"), which the mean-gap
+	// bound above judges; a fixed-phase ticker, whose individual gaps shrink after a late start, conforms to it.
+	if st := rec.allStarts(); len(st) >= 2 && c.Kind != "normal" {
+		short := 0
+		minG := time.Hour
+		for i := 1; i < len(st); i++ {
+			g := st[i].Sub(st[i-1])
+			if g < minG {
+				minG = g
+			}
+			if g < shortGap(block) {
+				short++
 			}
 		}
+		r.Hit("min-gap-all-starts")
+		r.Count("start_to_start_gaps_measured", int64(len(st)-1))
+		if short >= 3 {
+			o.cand("min-gap", fmt.Sprintf("%d of %d start-to-start gaps in this scenario were shorter than 95 %% of the block interval %v (smallest %v)", short, len(st)-1, block, minG), wit(""))
+		} else if short > 0 {
+			r.Count("isolated_early_gaps_not_judged", int64(short))
+		}
+	}
+	return o
+}
+
+// judgeUpper is the exact upper cadence bound on the recorder's own timestamps: n gaps cannot span less than n
+// intervals, because every re-arm is at least one interval after the start it follows and timers do not fire early
+// (5 % allowed for the skew of the first timestamp).
+func judgeUpper(o *obs, node []time.Time, interval time.Duration, what string, wit func(string) any) {
+	if len(node) < 9 {
+		return
+	}
+	gaps := len(node) - 1
+	span := node[len(node)-1].Sub(node[0])
+	if span < time.Duration(gaps)*shortGap(interval) {
+		o.cand("cadence-upper", fmt.Sprintf("%d consecutive blocks started within %v %s: that is one per %v on average", gaps+1, span, what, span/time.Duration(gaps)), wit(""))
+	}
+}
+
+// run executes one scenario, repeats it when the calibration reference was itself held up, and turns time-based
+// candidates into violations only when an immediate repetition shows the same clause again.
+func run(r *vk.Run, c Case) {
+	if c.Kind == "reaper" {
+		runReaper(r, c)
+		r.Eval(c.key(), true, c)
+		return
+	}
+	once := func() *obs {
+		o := runOnce(r, c)
+		for k := 0; o.refWeak && k < 4; k++ {
+			r.Count("reruns_because_reference_below_nominal", 1)
+			time.Sleep(time.Duration(50*(k+1)) * time.Millisecond)
+			o = runOnce(r, c)
+		}
+		return o
+	}
+	o := once()
+	if len(o.cands) > 0 {
+		o2 := once()
+		o.inconc = append(o.inconc, o2.inconc...)
+		o.refWeak = o.refWeak && o2.refWeak
+		for _, a := range o.cands {
+			var again *cand
+			for i := range o2.cands {
+				if o2.cands[i].clause == a.clause {
+					again = &o2.cands[i]
+					break
+				}
+			}
+			if again == nil {
+				r.Count("time_based_candidates_not_reproduced", 1)
+				r.Count("not_reproduced_"+a.clause, 1)
+				fmt.Fprintf(os.Stderr, "C17 candidate not reproduced: %s %s: %s\n", c.key(), a.clause, a.detail)
+				continue
+			}
+			r.Violation(a.clause, a.detail+" || immediate repetition of the scenario: "+again.detail, map[string]any{"first": a.wit, "repetition": again.wit})
+		}
+	}
+	if o.refWeak {
+		o.inconclusive(fmt.Sprintf("%s: the reference timer loop stayed below 80 %% of nominal in five attempts (machine load); lower cadence bound not judged", c.key()))
+	}
+	for _, s := range o.inconc {
+		r.Inconclusive(s)
 	}
 	r.Eval(c.key(), len(c.Offsets) > 0 || c.Storm, c)
 }
@@ -388,18 +561,22 @@ func run(r *vk.Run, c Case) {
 // Run is the check entry point.
 func Run(r *vk.Run) {
 	world.Silence()
-	r.Rule = "the real AggregationLoop with the production function replaced by a recorder (the package's own test seam); scenarios: (inflight) lazy mode, idle interval 1 h, a production is held in flight, notifications arrive at swept offsets, after release a further production must start; (ondemand) lazy mode, block interval 20|50 ms, idle/block ratio 2|4|20, production duration 0|50|200 % of the block interval, 8 notifications at swept offsets: each must be followed by a block, gaps below half a block interval and latencies above three block intervals are judged only when they occur in >= 3 of 8 samples; (stream) notifications every 0.2-0.7 block intervals for 12 block intervals with the idle interval 40x away: blocks must keep coming; (afteridle) lazy mode, block interval 30|40 ms, idle interval 1.5|2.5|3.5 block intervals, 8 notifications placed 4-33 % of a block interval after the start of an idle-timer block or before the next idle tick: the two gaps around that block must not fall below 3/4 of a block interval in >= 3 of 8 samples; (idle) no notifications, ratio 1|2|4: block count over 24 idle intervals; (normal) normal mode with and without a notification storm: block count over 24 block intervals. non-trivial = at least one notification; distinct by parameter tuple"
-	r.Assume("decisions rest on real time only where load can merely make the implementation look better (timers never fire early; a production that does not start within 15 s although the idle interval is 1 h was not going to start); isolated early/late samples are counted, not judged")
+	r.Rule = "the real AggregationLoop with the production function replaced by a recorder (the package's own test seam); scenarios: (inflight) lazy mode, idle interval 1 h, a production is held in flight, notifications arrive at swept offsets, after release a further production must start; (ondemand) lazy mode, block interval 20|50 ms, idle/block ratio 2|4|20, production duration 0|50|200 % of the block interval, 8 notifications at swept offsets after the end of the previous production; (latency) block interval 40 ms, ratio 6|20|40, production 0|50 %, 8 notifications 1.1-1.7 and 3.1-3.7 block intervals after the previous start (after one or three empty ticks); in both every notification must be followed by a block, a start-to-start gap below 95 % of the block interval or a latency above block interval + reference sleep overshoot + 25 % is a candidate when it occurs in >= 3 of 8 samples; (stream) notifications every 0.2-0.7 block intervals for 12 block intervals with the idle interval 40x away; (afteridle) block interval 30|40 ms, idle interval 1.5|2.5|3.5 block intervals, 8 notifications 4-33 % of a block interval after the start of an idle-timer block or before the next idle tick; (idle) no notifications, ratio 1|2|4, production 0|50|150 %: blocks over 24 periods; (normal) normal mode with and without a notification storm, production 0|50|120|200 %: blocks over 24 periods; lower bounds are relative to a reference timer loop running in the same process over the same window; (reaper) the real block.Reaper polls an execution double's mempool and submits to a queueing sequencer, real production, idle interval 1 h: an injected transaction must end up in a block. Time-based candidates count only when an immediate repetition of the scenario reproduces them. non-trivial = at least one notification; distinct by parameter tuple"
+	r.Assume("decisions rest on real time only where load can merely make the implementation look better (timers never fire early; a production that does not start within 15 s although the idle interval is 1 h was not going to start) or relative to a reference measured in the same process over the same window (a timer loop re-armed by the stated rule; a plain sleep of one block interval started at the notification instant); a sample whose reference is itself below 80 % of nominal is repeated and finally inconclusive; isolated early/late samples are counted, not judged; a time-based candidate must reproduce on an immediate repetition of the scenario")
 	rng := r.Rand("cases")
 	var cases []Case
 	id := 0
 	add := func(c Case) { c.ID = id; id++; cases = append(cases, c) }
 	sweeps := r.N(3, 40)
 	for k := 0; k < sweeps; k++ {
-		for _, b := range []int{10, 25} {
+		for bi, b := range []int{10, 25} {
 			var offs []int
 			for j := 0; j < 6; j++ {
-				offs = append(offs, rng.Intn(200))
+				off := rng.Intn(200)
+				if (k+bi)%3 == 0 {
+					off &^= 1 // single notifications only: this case also observes "nothing without a notification"
+				}
+				offs = append(offs, off)
 			}
 			add(Case{Kind: "inflight", BlockMs: b, Ratio: 0, Offsets: offs})
 		}
@@ -411,7 +588,7 @@ func Run(r *vk.Run) {
 					var offs []int
 					for j := 0; j < 8; j++ {
 						if j%8 < 5 {
-							offs = append(offs, 5+rng.Intn(36)) // soon after the previous block started
+							offs = append(offs, 5+rng.Intn(36)) // soon after the previous block
 						} else {
 							offs = append(offs, 60+rng.Intn(120))
 						}
@@ -419,6 +596,17 @@ func Run(r *vk.Run) {
 					rng.Shuffle(len(offs), func(a, b int) { offs[a], offs[b] = offs[b], offs[a] })
 					add(Case{Kind: "ondemand", BlockMs: b, Ratio: ratio, ProdPct: pp, Offsets: offs})
 				}
+			}
+		}
+		for _, ratio := range []int{6, 20, 40} {
+			for _, pp := range []int{0, 50} {
+				var offs []int
+				for j := 0; j < 8; j++ {
+					// after the first (110-170 %) or the third (310-370 %) empty tick that followed the previous block
+					offs = append(offs, []int{110, 310}[j%2]+rng.Intn(61))
+				}
+				rng.Shuffle(len(offs), func(a, b int) { offs[a], offs[b] = offs[b], offs[a] })
+				add(Case{Kind: "latency", BlockMs: 40, Ratio: ratio, ProdPct: pp, Offsets: offs})
 			}
 		}
 	}
@@ -435,12 +623,21 @@ func Run(r *vk.Run) {
 		add(Case{Kind: "stream", BlockMs: []int{25, 50}[k%2], Ratio: 40, Offsets: []int{20 + rng.Intn(50)}, ProdPct: []int{0, 50}[k%2]})
 	}
 	for k := 0; k < r.N(1, 10); k++ {
-		for _, ratio := range []int{1, 2, 4} {
-			add(Case{Kind: "idle", BlockMs: 10, Ratio: ratio, ProdPct: []int{0, 50}[k%2]})
-		}
+		add(Case{Kind: "idle", BlockMs: 20, Ratio: 1, ProdPct: 0})
+		add(Case{Kind: "idle", BlockMs: 10, Ratio: 2, ProdPct: 50})
+		add(Case{Kind: "idle", BlockMs: 10, Ratio: 4, ProdPct: 0})
+		add(Case{Kind: "idle", BlockMs: 20, Ratio: 1, ProdPct: 120 + rng.Intn(81)}) // longer than both intervals
+		add(Case{Kind: "idle", BlockMs: 10, Ratio: 4, ProdPct: 120 + rng.Intn(81)}) // longer than the block interval only
 		add(Case{Kind: "normal", BlockMs: 20, Storm: false})
 		add(Case{Kind: "normal", BlockMs: 20, Storm: true})
-		add(Case{Kind: "normal", BlockMs: 10, Storm: true, ProdPct: 50})
+		add(Case{Kind: "normal", BlockMs: 20, Storm: true, ProdPct: 50})
+		add(Case{Kind: "normal", BlockMs: 20, Storm: false, ProdPct: 120 + rng.Intn(81)})
+		add(Case{Kind: "normal", BlockMs: 20, Storm: true, ProdPct: 120 + rng.Intn(81)})
+	}
+	for k := 0; k < r.N(1, 6); k++ {
+		for _, v := range []string{"plain", "held-submit", "failing-submit", "pair"} {
+			add(Case{Kind: "reaper", BlockMs: []int{10, 25}[k%2], Variant: v, ProdPct: []int{0, 150}[k%2]})
+		}
 	}
 	var wg sync.WaitGroup
 	ch := make(chan Case)
@@ -460,7 +657,8 @@ func Run(r *vk.Run) {
 	wg.Wait()
 	r.Require("no-lost-wakeup", 10)
 	r.Require("on-demand", 40)
+	r.Require("on-demand-latency", 6)
 	r.Require("cadence", 4)
+	r.Require("cadence-lower", 3)
+	r.Require("reaper-notify", 3)
 }
-
-var _ = rand.Int
